@@ -73,6 +73,11 @@ class Ctx:
         self.src_hashes = {}
 
     # ---------------------------------------------------------------- scratch
+    def clear_replays(self):
+        import glob
+        for f in glob.glob(os.path.join(VERIF, "replays", f"{self.pid}-*.json")):
+            os.remove(f)
+
     def setup_scratch(self):
         """Copy /repo's *working tree* package to a scratch dir, make it the csvpath that gets
         imported, and run from a private working directory with a private relative config."""
@@ -335,3 +340,37 @@ class Quiet:
         os.dup2(self.o, 1); os.dup2(self.e, 2)
         os.close(self.o); os.close(self.e); os.close(self.n)
         return False
+
+
+# ---------------------------------------------------------------- generic Coq-side judging
+def coq_bad(ctx, name, imports, ctype, lits, preds, chunk=300, par=8):
+    """Evaluate boolean Coq predicates over a list of case literals with vm_compute (in parallel
+    coqc processes); returns {pred: set(indices of cases where it is false)}."""
+    import concurrent.futures as cf
+    header = ("From Coq Require Import ZArith List Bool.\nFrom V Require Import Harness.Cmp " + imports +
+              ".\nImport ListNotations.\nOpen Scope Z_scope.\n")
+    parts = list(chunks(list(enumerate(lits)), chunk))
+
+    def one(arg):
+        n, part = arg
+        text = header + f"Definition cases : list {ctype} := [\n " + ";\n ".join(l for _, l in part) + "].\n" + \
+            "".join(f"Eval vm_compute in (bad ({p}) cases).\n" for p in preds)
+        outs = parse_zlist(ctx.coq_eval(f"{name}{n}", text))
+        if len(outs) != len(preds):
+            raise RuntimeError("unexpected coqc output for " + name)
+        return [(p, {part[i][0] for i in o}) for p, o in zip(preds, outs)]
+    res = {p: set() for p in preds}
+    with cf.ThreadPoolExecutor(max_workers=par) as ex:
+        for r in ex.map(one, list(enumerate(parts))):
+            for p, s in r:
+                res[p] |= s
+    return res
+
+
+def ulit(s):
+    """Python str or None -> Coq ustring / option ustring literal helpers"""
+    return listlit([ord(c) for c in s])
+
+
+def oulit(s):
+    return "None" if s is None else f"(Some {ulit(s)})"
